@@ -126,6 +126,8 @@ type Exec struct {
 	replayModel       Model // non-nil: re-executing a counterexample (every draw pinned to its model value)
 	specMode          bool // speculative evaluation of a pure branch side (if-conversion)
 	noIfConv          bool
+	schedAll          bool
+	pinQuiet          bool
 }
 
 type workItem struct {
@@ -638,12 +640,22 @@ func (ex *Exec) pin(v *Term) {
 	default:
 		return
 	}
+	eq := ex.tt.Eq(v, k)
 	if v.sort.K == SF64 {
 		// bit-exact equality (fp.eq would identify +0/-0 and reject NaN)
-		ex.addPC(ex.tt.app("=", BoolSort, v, k))
+		eq = ex.tt.app("=", BoolSort, v, k)
+	}
+	if ex.pinQuiet {
+		// exact replay of a decision trace: the pin constrains the solver (so that
+		// every later check is decided under the model) but must not change which
+		// decisions are taken, hence it stays out of the syntactic shortcut set
+		if !eq.isConst {
+			ex.pc = append(ex.pc, eq)
+			ex.sol.Assert(eq)
+		}
 		return
 	}
-	ex.addPC(ex.tt.Eq(v, k))
+	ex.addPC(eq)
 }
 
 func (ex *Exec) newSymBool(label string, record bool) *Term {
